@@ -8,6 +8,7 @@ import (
 	"crypto/ed25519"
 	"crypto/sha1"
 	"crypto/tls"
+	"crypto/x509"
 	"encoding/base64"
 	"encoding/hex"
 	"errors"
@@ -23,6 +24,7 @@ import (
 	"github.com/hashicorp/nodeenrollment"
 	"github.com/hashicorp/nodeenrollment/registration"
 	"github.com/hashicorp/nodeenrollment/rotation"
+	"github.com/hashicorp/nodeenrollment/storage/inmem"
 	nodetls "github.com/hashicorp/nodeenrollment/tls"
 	"github.com/hashicorp/nodeenrollment/types"
 	"google.golang.org/protobuf/proto"
@@ -49,8 +51,18 @@ type Behaviour struct {
 }
 
 type St struct {
-	Rec  map[string]bool   `json:"rec"`
-	Cert map[string]string `json:"cert"`
+	Rec       map[string]bool   `json:"rec"`
+	Cert      map[string]string `json:"cert"`
+	PrevRec   map[string]bool   `json:"prevrec"`
+	HasPrev   map[string]bool   `json:"hasprev"`
+	PrevFresh map[string]bool   `json:"prevfresh"`
+}
+
+// prev holds a node's previous credentials after a credential rotation.
+type prev struct {
+	store nodeenrollment.Storage
+	keyId string
+	fresh bool
 }
 
 type Line struct {
@@ -107,14 +119,23 @@ func abbreviate(in []string) []string {
 }
 
 type run struct {
-	srv *hs.Server
-	cfg Cfg
-	rng *mrand.Rand
+	srv  *hs.Server
+	cfg  Cfg
+	rng  *mrand.Rand
+	prev map[string]*prev
 }
 
 func (r *run) state() St {
-	st := St{Rec: map[string]bool{}, Cert: map[string]string{}}
+	st := St{Rec: map[string]bool{}, Cert: map[string]string{}, PrevRec: map[string]bool{}, HasPrev: map[string]bool{}, PrevFresh: map[string]bool{}}
 	for _, k := range r.cfg.CertKeys {
+		if p, ok := r.prev[k]; ok {
+			st.HasPrev[k] = true
+			st.PrevFresh[k] = p.fresh
+			ni := &types.NodeInformation{Id: p.keyId}
+			st.PrevRec[k] = r.srv.W.Inner.Load(r.srv.W.Ctx, ni) == nil
+		} else {
+			st.HasPrev[k], st.PrevFresh[k], st.PrevRec[k] = false, false, false
+		}
 		st.Rec[k] = r.srv.RecordPresent(k)
 		st.Cert[k] = "none"
 		if n, ok := r.srv.Nodes[k]; ok {
@@ -163,7 +184,7 @@ func Run(bh Behaviour, seed int64) ([]Line, error) {
 		return nil, err
 	}
 	defer srv.Close()
-	r := &run{srv: srv, cfg: bh.Cfg, rng: mrand.New(mrand.NewSource(world.Uint64Seed(seed, "hsd/"+bh.Id)))}
+	r := &run{srv: srv, cfg: bh.Cfg, prev: map[string]*prev{}, rng: mrand.New(mrand.NewSource(world.Uint64Seed(seed, "hsd/"+bh.Id)))}
 	cfgMap := map[string]any{"nidl": bh.Cfg.Nidl, "base": bh.Cfg.Base}
 	var lines []Line
 	for i, op := range bh.Ops {
@@ -277,7 +298,53 @@ func (r *run) step(op map[string]any, ln *Line) {
 		if err := srv.ReinitRoots(); err != nil {
 			ln.Err = err.Error()
 		}
+		for _, p := range r.prev {
+			p.fresh = false
+		}
 		ln.Res = "ok"
+	case "RotateNode":
+		r.rotateNode(op, ln)
+	case "RemovePrev":
+		p, ok := r.prev[s(op, "k")]
+		if !ok {
+			ln.Res = "skip"
+			return
+		}
+		ni := &types.NodeInformation{Id: p.keyId}
+		if srv.W.Inner.Load(srv.W.Ctx, ni) != nil {
+			ln.Res = "skip"
+			return
+		}
+		_ = srv.W.Store.Remove(srv.W.Ctx, ni)
+		ln.Res = "ok"
+	case "DialPrev":
+		p, ok := r.prev[s(op, "k")]
+		if !ok {
+			ln.Res = "skip"
+			return
+		}
+		name := "prev-" + s(op, "k")
+		creds, err := types.LoadNodeCredentials(srv.W.Ctx, p.store, nodeenrollment.CurrentId)
+		if err != nil {
+			ln.Res, ln.Err = "harness-error", err.Error()
+			return
+		}
+		srv.Nodes[name] = &hs.Node{Name: name, Storage: p.store, Creds: creds, Fresh: p.fresh}
+		results, conn, derr := srv.HonestDial(name)
+		delete(srv.Nodes, name)
+		for _, x := range results {
+			r.record(ln, x)
+			if x.Conn != nil {
+				x.Conn.Close()
+			}
+		}
+		if conn != nil {
+			conn.Close()
+		}
+		if derr != nil {
+			ln.Obs.ClientErr = derr.Error()
+		}
+		ln.Res = summarize(ln.Obs.Kinds)
 	case "NewNode":
 		k := s(op, "k")
 		if _, ok := srv.Nodes[k]; ok {
@@ -438,6 +505,76 @@ func (r *run) dial(op map[string]any, ln *Line) {
 		// client and server disagree about the outcome: keep both visible
 		ln.Obs.ClientErr = "client/server disagree: " + ln.Obs.ClientErr
 	}
+}
+
+// rotateNode performs a node credential rotation end to end: the node creates new credentials, seals the
+// fetch request with its current shared key, the server runs rotation.RotateNodeCredentials, the node opens
+// the reply with the current key and the credentials inside with the new one.
+func (r *run) rotateNode(op map[string]any, ln *Line) {
+	srv := r.srv
+	w := srv.W
+	k := s(op, "k")
+	n, ok := srv.Nodes[k]
+	if !ok || len(n.Creds.CertificateBundles) != 2 {
+		ln.Res = "skip"
+		return
+	}
+	old := n.Creds
+	newStore, _ := inmem.New(w.Ctx)
+	nc, err := types.NewNodeCredentials(w.Ctx, newStore)
+	if err != nil {
+		ln.Res, ln.Err = "harness-error", err.Error()
+		return
+	}
+	nc.PreviousCertificatePublicKeyPkix = old.CertificatePublicKeyPkix
+	req, err := nc.CreateFetchNodeCredentialsRequest(w.Ctx)
+	if err != nil {
+		ln.Res, ln.Err = "harness-error", err.Error()
+		return
+	}
+	ct, err := nodeenrollment.EncryptMessage(w.Ctx, req, old)
+	if err != nil {
+		ln.Res, ln.Err = "harness-error", err.Error()
+		return
+	}
+	rreq := &types.RotateNodeCredentialsRequest{CertificatePublicKeyPkix: old.CertificatePublicKeyPkix, EncryptedFetchNodeCredentialsRequest: ct}
+	if r.cfg.Nidl {
+		rreq.NodeId = "N-" + k
+	}
+	resp, err := rotation.RotateNodeCredentials(w.Ctx, w.Store, rreq, w.StorageOpts()...)
+	if err != nil {
+		ln.Res, ln.Err = "error", err.Error()
+		return
+	}
+	fr := new(types.FetchNodeCredentialsResponse)
+	if err := nodeenrollment.DecryptMessage(w.Ctx, resp.EncryptedFetchNodeCredentialsResponse, old, fr); err != nil {
+		ln.Res, ln.Err = "error", "reply does not open with the current key: "+err.Error()
+		return
+	}
+	if err := nc.SetPreviousEncryptionKey(old); err != nil {
+		ln.Res, ln.Err = "harness-error", err.Error()
+		return
+	}
+	if _, err := nc.HandleFetchNodeCredentialsResponse(w.Ctx, newStore, fr); err != nil {
+		ln.Res, ln.Err = "error", "node refuses the rotated credentials: "+err.Error()
+		return
+	}
+	oldKid, _ := nodeenrollment.KeyIdFromPkix(old.CertificatePublicKeyPkix)
+	r.prev[k] = &prev{store: n.Storage, keyId: oldKid, fresh: n.Fresh}
+	// the identity now answers to the new key
+	priv, _ := x509.ParsePKCS8PrivateKey(nc.CertificatePrivateKeyPkcs8)
+	ep := priv.(ed25519.PrivateKey)
+	_, kid, _ := nodeenrollment.SubjectKeyInfoAndKeyIdFromPubKey(ep.Public())
+	w.CertKeys[k] = &world.CertKey{Name: k, Pub: ep.Public().(ed25519.PublicKey), Priv: ep, Pkix: nc.CertificatePublicKeyPkix, Pkcs8: nc.CertificatePrivateKeyPkcs8, KeyId: kid}
+	if r.cfg.Nidl {
+		ni := &types.NodeInformation{Id: kid}
+		if w.Inner.Load(w.Ctx, ni) == nil {
+			ni.NodeId = "N-" + k
+			_ = w.Inner.Store(w.Ctx, ni)
+		}
+	}
+	srv.Nodes[k] = &hs.Node{Name: k, Storage: newStore, Creds: nc, Fresh: true}
+	ln.Res = "ok"
 }
 
 func rawCreds(srv *hs.Server, n *hs.Node) []byte {
